@@ -67,6 +67,17 @@ def scan(tree, modname):
             return True
         if isinstance(e, ast.Attribute) and e.attr in set_names:
             return True
+        # set algebra: a - b, a | b, ..., a.difference(b), ...
+        if isinstance(e, ast.BinOp) and isinstance(
+                e.op, (ast.Sub, ast.BitOr, ast.BitAnd, ast.BitXor)) and (
+                    is_set_expr(e.left, set_names) or
+                    is_set_expr(e.right, set_names)):
+            return True
+        if isinstance(e, ast.Call) and isinstance(e.func, ast.Attribute) \
+                and e.func.attr in ('union', 'difference', 'intersection',
+                                    'symmetric_difference', 'copy') and \
+                is_set_expr(e.func.value, set_names):
+            return True
         return False
 
     def check(n, qual, set_names):
@@ -104,6 +115,12 @@ def scan(tree, modname):
                 n.func.id in ('list', 'tuple', 'next', 'iter', 'enumerate',
                               'map', 'filter', 'zip') and n.args:
             iters.extend(n.args)
+        # order-sensitive consumers: xs.extend(s), sep.join(s), xs += s
+        if isinstance(n, ast.Call) and isinstance(n.func, ast.Attribute) and \
+                n.func.attr in ('extend', 'join', 'writelines') and n.args:
+            iters.extend(n.args)
+        if isinstance(n, ast.AugAssign) and isinstance(n.op, ast.Add):
+            iters.append(n.value)
         for it in iters:
             if is_set_expr(it, set_names):
                 found.append((qual, 'set-iteration', n.lineno))
